@@ -33,3 +33,94 @@ pub mod handshake {
         KeyMaterialClientAuth::new(secret_key, io).map(KeyMaterialClientAuth::into_header_value)
     }
 }
+
+/// Relay frame codec (C10): the crate-private encode / decode functions and the client-side
+/// connection (sink with the send-side size checks, stream with the decoder).
+pub mod codec {
+    use bytes::{Bytes, BytesMut};
+
+    use crate::{
+        KeyCache,
+        http::ProtocolVersion,
+        protos::relay::{ClientToRelayMsg, Error, RelayToClientMsg},
+    };
+
+    pub const MAX_FRAME_SIZE: usize = crate::protos::relay::MAX_FRAME_SIZE;
+
+    pub fn c2r_to_bytes(msg: &ClientToRelayMsg) -> BytesMut {
+        msg.to_bytes()
+    }
+    pub fn c2r_encoded_len(msg: &ClientToRelayMsg) -> usize {
+        msg.encoded_len()
+    }
+    #[cfg(feature = "server")]
+    #[allow(clippy::result_large_err)]
+    pub fn c2r_from_bytes(bytes: Bytes, cache: &KeyCache) -> Result<ClientToRelayMsg, Error> {
+        ClientToRelayMsg::from_bytes(bytes, cache)
+    }
+    #[cfg(feature = "server")]
+    pub fn r2c_to_bytes(msg: &RelayToClientMsg) -> BytesMut {
+        msg.to_bytes()
+    }
+    #[cfg(feature = "server")]
+    pub fn r2c_encoded_len(msg: &RelayToClientMsg) -> usize {
+        msg.encoded_len()
+    }
+    #[allow(clippy::result_large_err)]
+    pub fn r2c_from_bytes(
+        bytes: Bytes,
+        cache: &KeyCache,
+        version: ProtocolVersion,
+    ) -> Result<RelayToClientMsg, Error> {
+        RelayToClientMsg::from_bytes(bytes, cache, version)
+    }
+
+    /// The client's relay connection (`client::conn::Conn`) over an already connected TCP
+    /// stream, as a websocket client that skips the HTTP upgrade and the relay handshake.
+    #[cfg(not(wasm_browser))]
+    pub fn client_conn_over_tcp(
+        tcp: tokio::net::TcpStream,
+        key_cache: KeyCache,
+        protocol_version: ProtocolVersion,
+    ) -> impl n0_future::Sink<ClientToRelayMsg, Error = crate::client::SendError>
+    + n0_future::Stream<Item = Result<RelayToClientMsg, crate::client::RecvError>>
+    + Unpin {
+        use crate::{
+            client::streams::{MaybeTlsStream, ProxyStream},
+            protos::streams::WsBytesFramed,
+        };
+        crate::client::conn::Conn {
+            conn: WsBytesFramed {
+                io: tokio_websockets::ClientBuilder::new()
+                    .limits(tokio_websockets::Limits::default().max_payload_len(Some(MAX_FRAME_SIZE)))
+                    .take_over(MaybeTlsStream::Raw(ProxyStream::Raw(tcp))),
+            },
+            key_cache,
+            protocol_version,
+        }
+    }
+}
+
+/// Relay per-client receive rate limit (C09): the crate-private `RateLimited` reader.
+#[cfg(feature = "server")]
+pub mod ratelimit {
+    use std::sync::Arc;
+
+    use tokio::{io::AsyncRead, sync::watch};
+
+    use crate::server::{
+        ClientRateLimit, Metrics,
+        streams::{InvalidBucketConfig, RateLimited},
+    };
+
+    /// `RateLimited::from_watcher(io, rx, metrics)` (the constructor the server uses) together with
+    /// its `limited_watcher()`.
+    pub fn limited_from_watcher<S: AsyncRead + Unpin>(
+        io: S,
+        rate_limit: watch::Receiver<Option<ClientRateLimit>>,
+    ) -> Result<(impl AsyncRead + Unpin, watch::Receiver<u64>), InvalidBucketConfig> {
+        let limited = RateLimited::from_watcher(io, rate_limit, Arc::new(Metrics::default()))?;
+        let count = limited.limited_watcher();
+        Ok((limited, count))
+    }
+}
